@@ -420,6 +420,32 @@ def order_statistic_rules(ctx, prog):
                 and "f64" in bh.local_ty(op_local(st["rv"]["a"]) if op_local(st["rv"]["a"]) is not None else 0)["s"]]
         if cmps:
             scans.append((bb, t))
+    # adaptor spelling: the comparison lives in a closure handed to fold / for_each over the ordered values
+    ad_scan = None
+    if not scans:
+        from ..analysis import _closure_receiver_call, _consumed_totally, iter_chain
+        for c in prog.closures_of(bh):
+            cm = [st for blk in c.blocks for st in blk.stmts if st["k"] == "assign" and st["rv"]["k"] == "binop" and st["rv"]["op"] in ("Le", "Lt", "Ge", "Gt")
+                  and op_local(st["rv"]["a"]) is not None and "f64" in c.local_ty(op_local(st["rv"]["a"]))["s"]]
+            rc = _closure_receiver_call(prog, bh, c) if cm else None
+            if rc is not None and rc[1]["callee"].get("method") in ("fold", "for_each", "map", "filter", "filter_map", "rposition", "rfind"):
+                ad_scan = rc
+    if ad_scan is not None:
+        abb, at = ad_scan
+        tot, how = _consumed_totally(bh, at)
+        chain = iter_chain(bh, at["args"][0]) if at["args"] else []
+        cut = sorted(set(chain) & POSITIONAL_CUT)
+        from ..analysis import skips_only_via
+
+        def _empty_exit2(u, v, src, lab):
+            return src.get("kind") == "call" and src["term"]["callee"].get("method") == "is_empty" and lab != 0
+        okp, _e = skips_only_via(bh, [abb], _empty_exit2)
+        dom = bh.dominators(unwind=False)
+        sorted_first = any(x in dom[abb] for x, _ in sorts)
+        ok = tot and not cut and okp and sorted_first
+        ctx.ob("R6.step-up-scans-every-rank", "benjamini_hochberg", ok, bh.loc(),
+               f"adaptor form: closure handed to `{at['callee'].get('method')}` ({how}), positional cuts {cut or 'none'}; every return passes it: {okp}; runs over the sorted values: {sorted_first}")
+        return
     ok = len(scans) == 1 and len(sorts) >= 1
     det = f"sorted first: {bool(sorts)}; threshold scans: {len(scans)}"
     if ok:
